@@ -25,6 +25,24 @@ CLAIMED = {
              "destroyed exactly once by a releasing operation and never while a live handle remains), arena shadow for use-after-delete "
              "and double delete, happens-before check of the owner's payload write against the destructor.",
              design="4 (C08)", note=TRUSTED),
+ "C01": dict(text="Seeded search over loop calls (8 index types, boundary-heavy counts incl. negative/0/type maximum, parallel_for / "
+             "parallel_foreach / parallel_in_blocks_of<1,3,16,64>, nesting, calls from inside tasks, uneven body cost) x worker/caller "
+             "interleavings on four back-end lanes (vendored enkiTS real; TBB and libgomp as contract-level stubs; serial). Oracle "
+             "during the run: index outside [0,n), second invocation, block arithmetic, body event after return; afterwards: every "
+             "index once; visibility via a happens-before check of every body's slot write against the caller's read.",
+             design="4 (C01)", note=TRUSTED + " TBB and libgomp are stubs implementing their documented contract; a defect needing the real library's behaviour beyond that contract is out of reach."),
+ "C02": dict(text="Seeded search over mixes of schedule/async/AsyncTask with result types int, string, vector and an instrumented type "
+             "whose construction and assignment take several scheduling points, consumer scripts over finished/valid/wait/get/destroy, "
+             "bursts crossing the 256-slot pipe, on four back-end lanes. Oracle: execution count exactly one (fair drain for "
+             "'eventually'), value equality and completeness, finished()==true implies a non-blocking get(), no assignment to an "
+             "unconstructed result, closure-state conservation, arena shadow for use-after-free/double delete of task and AsyncTask "
+             "storage, happens-before race check on the AsyncTask object.",
+             design="4 (C02)", note=TRUSTED + " TBB and libgomp are stubs implementing their documented contract."),
+ "C13": dict(text="Seeded search over histories of initTaskingSystem(n) (n in -1,0,1..2H), numTaskingThreads() and parallel loops with a "
+             "simulated core count H, every run starting from the image of a freshly started process, on four back-end lanes; oracle: "
+             "reported count per the property and the number of simultaneously active loop bodies never above it at any event (reach "
+             "probe: the bound is attained).",
+             design="4 (C13)", note=TRUSTED + " On the tbb/omp lanes this exercises rkcommon's use of global_control / omp_set_num_threads against the stubs' contract."),
 }
 
 NA = {
